@@ -45,6 +45,14 @@ ApplyHere(n, op) ==
     [] op.op = "swap"  -> [n EXCEPT !.kids = Swap(@, op.i, op.j)]
     [] op.op = "large" -> [n EXCEPT !.large = TRUE]
     [] op.op = "eof"   -> [n EXCEPT !.eof = TRUE]
+    \* an event message box (DASH, ISO/IEC 23009-1) of version op.ver in front of kid op.at
+    [] op.op = "emsg"  -> [n EXCEPT !.kids = InsAt(@, op.at, Leaf(EncEmsg(
+                              [ version |-> op.ver, flags |-> 0, timescale |-> <<3, 232>>,
+                                presentation_time |-> IF op.ver = 1 THEN Some(<<1, 0, 0, 0, 7>>) ELSE None,
+                                presentation_time_delta |-> IF op.ver = 0 THEN Some(<<9>>) ELSE None,
+                                event_duration |-> <<255, 255>>, id |-> <<op.at>>,
+                                scheme_id_uri |-> <<117, 114, 110, 58, 120>>, value |-> <<49, 50>>,
+                                message_data |-> <<1, 2, 3, 4, 5>> ])))]
     [] op.op = "spare" -> [n EXCEPT !.spare = Fill(op.len, 165)]
 
 RECURSIVE ApplyAt(_, _, _)
